@@ -22,7 +22,7 @@ RULE_TEXT = ('runs = seeded random: workload A = (text over an alphabet with 2-/
              'text from literal / file / program). Non-trivial = at least two value-returning accesses (A) or a complete '
              'family (B) were compared; distinct = (workload, source kind, transformer chain, access sequence, buffer '
              'class relative to the text length, character classes present).')
-REACH_PROBES = ['A_literal', 'A_file', 'A_program', 'A_varying_program', 'A_freeze_then_access', 'A_access_then_freeze',
+REACH_PROBES = ['C_one_transformer_many_texts', 'A_literal', 'A_file', 'A_program', 'A_varying_program', 'A_freeze_then_access', 'A_access_then_freeze',
                 'A_partial_lines', 'A_text_longer_than_buffer', 'A_text_fits_buffer',
                 'A_multibyte', 'A_cr', 'A_unicode_line_separators', 'A_no_final_newline', 'A_empty_text',
                 'A_family_line_based', 'A_family_cached', 'A_run_transformer', 'A_write_to_spooled', 'A_as_file',
@@ -60,6 +60,8 @@ TRANSFORMERS = {
     'filter_nums_multi': ('filter -line-nums 1 3:', 'cached'),
     'filter_nums_but_last': ('filter -line-nums :-2', 'cached'),
     'replace_dirs': ('replace-test-case-dirs', 'line'),
+    'filter_nums_first_and_last': ('filter -line-nums 1 -1', 'cached'),
+    'filter_nums_2_and_last_two': ('filter -line-nums 2 -2:', 'cached'),
 }
 
 
@@ -102,6 +104,11 @@ def apply_transformer(tid, t):
         return ''.join(ls_[:1] + ls_[2:])
     if tid == 'filter_nums_but_last':
         return ''.join(ref_lines(t)[:-1])
+    if tid in ('filter_nums_first_and_last', 'filter_nums_2_and_last_two'):
+        ls_ = ref_lines(t)
+        n = len(ls_)
+        want = {1, n} if tid == 'filter_nums_first_and_last' else ({2} | {n - 1, n})
+        return ''.join(l for i, l in enumerate(ls_, 1) if i in want)
     if tid == 'upper':
         return t.upper()
     if tid == 'strip_nl':
@@ -140,7 +147,36 @@ def make_plan(i, master, tier):
     g = kernel.stream(seed, 'gen')
     if i % 7 == 6:
         return plan_b(seed, tier, g)
+    if i % 7 == 5:
+        return plan_c(seed, tier, g)
     return plan_a(seed, tier, g)
+
+
+def plan_c(seed, tier, g):
+    """Workload C: ONE transformer (and matcher) object consumes several texts in turn (files of a directory under a
+    quantifier): the value of each transformed text must not depend on which texts were consumed before it."""
+    classes = g.choice([[], [], ['multi'], ['seps']])
+    alpha = list(SAFE) + (MULTI if 'multi' in classes else []) + (SEPS if 'seps' in classes else [])
+    n_files = g.randint(2, 4)
+    texts = []
+    for _ in range(n_files):
+        texts.append(''.join(g.choice(alpha) for _ in range(g.choice([0, 1, 3, 8, 20, 40]))))
+    stateful = ['filter_nums_first_and_last', 'filter_nums_2_and_last_two', 'filter_nums_but_last', 'filter_nums_last',
+                'filter_nums_multi', 'filter_nums_from2', 'filter_first', 'grep_b', 'filter_all']
+    chain = [g.choice(stateful)]
+    if g.random() < 0.4:
+        chain.insert(g.randint(0, 1), g.choice(sorted(TRANSFORMERS)))
+    counts = [len(ref_lines(_apply_chain(chain, translate(t)))) for t in texts]
+    k = g.choice(counts + [max(counts) + 1])
+    return {'format': 1, 'property': PROPERTY, 'engine': 'c14', 'run_seed': seed, 'tier': tier, 'workload': 'C',
+            'knobs': {'mem_buff_size': g.choice([1, 3, 8, 64, 8192])}, 'entry': 'cli', 'texts': texts, 'chain': chain,
+            'k': k, 'classes': classes, 'sweep': False}
+
+
+def _apply_chain(chain, t):
+    for c in chain:
+        t = apply_transformer(c, t)
+    return t
 
 
 def plan_a(seed, tier, g):
@@ -234,6 +270,8 @@ def expected_a(plan, n_invocation=1):
 def execute(plan, scratch):
     if plan['workload'] == 'B':
         return execute_b(plan, scratch)
+    if plan['workload'] == 'C':
+        return execute_c(plan, scratch)
     w = world_mod.World(os.path.join(scratch, 'w'))
     T, kind = plan['T'], plan['kind']
     procs = {'cat': {'cat': True, 'exit': 0}}
@@ -509,6 +547,55 @@ def execute_b(plan, scratch):
     return hist
 
 
+def _chain_syntax(chain):
+    parts = []
+    for c in chain:
+        syn = TRANSFORMERS[c][0]
+        parts.append(syn + ('\n' if syn.startswith('run') or syn.startswith('filter -line-nums') else ''))
+    return '( ' + ' | '.join(parts) + ' )'
+
+
+def execute_c(plan, scratch):
+    w = world_mod.World(os.path.join(scratch, 'w'))
+    for i, t in enumerate(plan['texts']):
+        w.write('home/d/f%d.txt' % i, data=t.encode('utf-8'))
+    procs = {'cat': {'cat': True, 'exit': 0}, 'atc': {'exit': 0}}
+    M = 'num-lines == %d' % plan['k']
+    setup = '[setup]\ndef text-transformer TT = %s\n' % _chain_syntax(plan['chain'])
+    forms = {'every': 'dir-contents -rel-home d : every file : contents -transformed-by TT ' + M,
+             'any': 'dir-contents -rel-home d : any file : contents -transformed-by TT ' + M}
+    for i in range(len(plan['texts'])):
+        forms['single%d' % i] = 'contents -rel-home d/f%d.txt : -transformed-by TT %s' % (i, M)
+        forms['selection%d' % i] = 'dir-contents -rel-home d : -selection name f%d.txt every file : contents ' \
+                                   '-transformed-by TT %s' % (i, M)
+    results = {}
+    events = []
+    sim_seconds = 0.0
+    for name in sorted(forms):
+        text = setup + '[act]\n% atc\n[assert]\n' + forms[name] + '\n'
+        w.write('home/t.case', text)
+        sim = kernel.Sim(dict(plan, procs=procs), w)
+        with patches.installed(sim):
+            res = host.run_cli(sim, ['t.case'])
+        results[name] = {'exit': res['exit'], 'ident': res['stdout'].strip(),
+                         'err': res['stderr'][:300] if res['exit'] not in (0, 32) else ''}
+        events.append(sim.events)
+        sim_seconds += sim.clock.advanced
+    hist = {'results': results, 'forms': forms, 'digest': kernel.digest(events), 'sim_seconds': sim_seconds,
+            'probes': {'C_one_transformer_many_texts': 1}, 'armed': {}, 'fired': {}}
+    w.destroy()
+    return hist
+
+
+def expected_c(plan):
+    per = [len(ref_lines(_apply_chain(plan['chain'], translate(t)))) == plan['k'] for t in plan['texts']]
+    exp = {'every': all(per), 'any': any(per)}
+    for i, v in enumerate(per):
+        exp['single%d' % i] = v
+        exp['selection%d' % i] = v
+    return exp
+
+
 # ----------------------------------------------------------------------------- oracle
 
 def oracle(plan, hist):
@@ -517,6 +604,14 @@ def oracle(plan, hist):
     def bad(rule, expected_, observed, **extra):
         V.append(dict(extra, rule='C14.' + rule, expected=expected_, observed=observed))
 
+    if plan['workload'] == 'C':
+        exp = expected_c(plan)
+        wrong = {k: (v['ident'], v['err'][:120]) for k, v in hist['results'].items() if v['exit'] != (0 if exp[k] else 32)}
+        if wrong:
+            bad('C.value_of_a_text_depends_on_texts_consumed_before' if all(k in ('every', 'any') for k in wrong)
+                else 'C.verdict', {k: ('PASS' if exp[k] else 'FAIL') for k in sorted(wrong)}, wrong,
+                texts=plan['texts'], chain=plan['chain'], k=plan['k'])
+        return V
     if plan['workload'] == 'B':
         want = expected_b(plan)
         wrong = {k: v for k, v in hist['results'].items() if v['exit'] != (0 if want else 32)}
@@ -584,7 +679,7 @@ def _after_freeze(hist, o):
 
 def classify_known(plan, hist, violation, kf):
     m = kf.get('match', {})
-    if m.get('workload') != plan['workload']:
+    if plan['workload'] == 'C' or m.get('workload') != plan['workload']:
         return False
     if plan['workload'] == 'B' and m.get('kind') == 'cr_bytewise_file_comparison':
         # texts that differ only in line-end convention, compared file to file (filecmp compares bytes)
@@ -601,6 +696,9 @@ def classify_known(plan, hist, violation, kf):
 
 
 def signature(plan, hist):
+    if plan['workload'] == 'C':
+        return True, ('C', tuple(plan['chain']), tuple(len(ref_lines(t)) for t in plan['texts']), plan['k'],
+                      plan['knobs']['mem_buff_size'])
     T = plan['T']
     cls = tuple(sorted({'multi' if any(c in T for c in MULTI) else '', 'cr' if '\r' in T else '',
                         'seps' if any(c in T for c in SEPS) else '', 'nofinalnl' if T and not T.endswith('\n') else ''}))
@@ -614,6 +712,8 @@ def signature(plan, hist):
 
 
 def sample_view(plan, hist):
+    if plan['workload'] == 'C':
+        return {'forms': hist['forms'], 'results': hist['results'], 'expected': expected_c(plan)}
     if plan['workload'] == 'B':
         return {'texts': dict(list(hist['texts'].items())[:3]), 'results': dict(list(hist['results'].items())[:6]),
                 'expected_pass': expected_b(plan)}
@@ -622,6 +722,8 @@ def sample_view(plan, hist):
 
 
 def normalize(plan):
+    if plan['workload'] == 'C':
+        return plan if len(plan['texts']) >= 1 and plan['chain'] else None
     if plan['workload'] == 'A':
         if not plan['ops']:
             return None
